@@ -1,4 +1,4 @@
-(* C11 / C13: the x86-64 pKVM hypercall PCI transport.  Transcribed from                         *)
+(* C11 / C12 / C13: the x86-64 pKVM hypercall PCI transport.  Transcribed from                   *)
 (*   src/transport/x86_64.rs            HypPciTransport::new, get_bar_region, impl Transport for     *)
 (*                                      HypPciTransport (all seventeen methods; there is NO impl    *)
 (*                                      Drop), the configread! / configwrite! macros                 *)
@@ -370,3 +370,63 @@ Definition hyp_cam_conform_b (ecam : bool) (phys_base bus dev fn reg : N) (wr : 
          end
   | _ => (rc =? 2) && is_nil tr
   end.
+
+(* ======================================================================================== *)
+(* C12 for HypCam: "addresses configuration space uniquely".  Written from the layout of the  *)
+(* two configuration access mechanisms (PCI Firmware 3.x MMIO CAM: 256 bytes per function,     *)
+(* 16 MiB; PCI Express ECAM: 4 KiB per function, 256 MiB), NOT from cam_offset: the window of  *)
+(* a CAM at physical address `base` is [base, base + cam_size) and the word `reg` of function  *)
+(* (bus, dev, fn) lives at base + ((bus * 256 + dev * 8 + fn) * stride + reg), the sum taken in *)
+(* the natural numbers (a base that is page-aligned but not aligned to the window size is      *)
+(* allowed: `|` in the place of `+` is wrong there).                                           *)
+(* ======================================================================================== *)
+Definition cam_stride (ecam : bool) : N := if ecam then 4096 else 256.
+
+(* one observed HypCam::read_word / write_word: the request, the result class (0 returned, 2 panicked),
+   the number of hypercalls it issued, the physical address and the size of the first one *)
+Record camobs := mkCO { co_bus : N; co_dev : N; co_fn : N; co_reg : N;
+                        co_cls : N; co_cnt : N; co_addr : N; co_width : N }.
+
+(* what cam_offset asserts: DeviceFunction::valid and a word-aligned register (bus, register are u8) *)
+Definition cam_req_valid (o : camobs) : bool :=
+  (co_bus o <? 256) && (co_dev o <? 32) && (co_fn o <? 8) && (co_reg o <? 256) && (co_reg o mod 4 =? 0).
+
+Definition cam_spec_addr (ecam : bool) (base : N) (o : camobs) : N :=
+  base + ((co_bus o * 256 + co_dev o * 8 + co_fn o) * cam_stride ecam + co_reg o).
+
+(* a valid request: ONE four-byte hypercall at exactly base + offset (in N), wholly inside the window;
+   an invalid one: refused (panic) without any hypercall *)
+Definition cam_obs_ok (ecam : bool) (base : N) (o : camobs) : bool :=
+  if cam_req_valid o then
+    (co_cls o =? 0) && (co_cnt o =? 1) && (co_width o =? 4)
+    && (co_addr o =? cam_spec_addr ecam base o)
+    && (base <=? co_addr o) && (co_addr o + 4 <=? base + cam_size ecam)
+  else (co_cls o =? 2) && (co_cnt o =? 0).
+
+Definition cam_same_req (a b : camobs) : bool :=
+  (co_bus a =? co_bus b) && (co_dev a =? co_dev b) && (co_fn a =? co_fn b) && (co_reg a =? co_reg b).
+
+(* distinct valid requests were sent to distinct addresses *)
+Fixpoint cam_distinct (l : list camobs) : bool :=
+  match l with
+  | [] => true
+  | a :: t =>
+      forallb (fun b => negb (cam_req_valid a && cam_req_valid b) || cam_same_req a b
+                        || negb (co_addr a =? co_addr b)) t
+      && cam_distinct t
+  end.
+
+(* the monitor (kind 1257).  The caller's contract of HypCam::new: the window lies inside the physical
+   address space (base + cam_size <= 2^64); nothing is claimed otherwise *)
+Definition hyp_cam_addrs_b (ecam : bool) (base : N) (l : list camobs) : bool :=
+  if two64 <? base + cam_size ecam then true
+  else forallb (cam_obs_ok ecam base) l && cam_distinct l.
+
+(* the model's own observation for a request (bus, dev, fn, reg, is_write, answer / data) *)
+Definition cam_class (r : outcome N) : N := match r with Ok _ => 0 | Err _ => 1 | Panic => 2 | UB => 3 end.
+Definition cam_obs_of (m : mode) (ecam : bool) (base : N) (q : N * N * N * N * bool * N) : camobs :=
+  let '(bus, dev, fn, reg, wr, x) := q in
+  let r := if wr then hyp_cam_write m ecam base bus dev fn reg x else hyp_cam_read m ecam base bus dev fn reg x in
+  mkCO bus dev fn reg (cam_class (fst r)) (lenN (snd r))
+       (match snd r with a :: _ => m_addr a | [] => 0 end)
+       (match snd r with a :: _ => m_width a | [] => 0 end).
